@@ -19,6 +19,7 @@
 From Coupe Require Import Lib.Prelude Lib.SFloat Lib.Report Model.KMeansAbs Run.RunC02 Proofs.C02Proofs.
 From Coupe Require Proofs.C02Collect.
 From Coupe Require Import Lib.Rayon Model.KMeans Gen.KMeansGen Proofs.KMeansProofs Proofs.KMeansNoPanic Proofs.KMeansCollect.
+From Coupe Require Proofs.KMeansVec.
 From Coq Require Import Floats.SpecFloat.
 From Coupe Require Properties.C07 Properties.C15.
 From Coupe Require Lib.Graph Model.Vn Model.Fm Proofs.FmProofs Model.Kl Model.ArcSwap Proofs.ArcSwapTerm.
@@ -300,6 +301,22 @@ Theorem C02_kmeans_more_points_than_ids_refuted :
     kmeans Fw (reds_tree Fw T_seq P_id) (Some ex_id) 2 ex_cfg points ex_ws part = Panic 10.
 Proof. exact kmeans_more_points_than_ids_refuted. Qed.
 Print Assumptions C02_kmeans_more_points_than_ids_refuted.
+
+(* faithfulness of the model's coordinate-wise reductions: for every arithmetic
+   and every split tree, when all vectors have D coordinates, the model's
+   `.sum::<PointND<D>>()` is the tree of VECTOR additions rayon + nalgebra
+   perform (fold from zero(), `[l, r].into_iter().sum()` at the nodes), and
+   its BoundingBox::from_points is the fold_with / reduce_with on pairs of
+   vectors (KMeansVec.tree_vsum_vec, KMeansVec.tree_bbox_vec: the literal forms) *)
+Theorem C02_kmeans_vector_sum_faithful : forall A t D xs, Forall (fun v => length v = D) xs ->
+  tree_vsum A t D xs = KMeansVec.tree_vsum_vec A t D xs.
+Proof. exact KMeansVec.tree_vsum_is_vector_sum. Qed.
+Print Assumptions C02_kmeans_vector_sum_faithful.
+
+Theorem C02_kmeans_bbox_faithful : forall A t D xs, Forall (fun v => length v = D) xs ->
+  tree_bbox A t D xs = KMeansVec.tree_bbox_vec A t D xs.
+Proof. exact KMeansVec.tree_bbox_is_vector_fold. Qed.
+Print Assumptions C02_kmeans_bbox_faithful.
 
 (* the source still has the shape the model mirrors (26 fragments / operators) *)
 Theorem C02_kmeans_source_shape : forallb (fun b => b) km_source_shape = true.
